@@ -86,9 +86,10 @@ var _ time.Time
 //@   requires reader != nil
 //@   modifies nothing
 
+// every bundle gets a root pool of its own (the bundle's CA is added to it: a shared pool would make every
+// bundle trust every other bundle's CA)
 //@ func astra.createCertPool [C19]
-//@   trusted
-//@   ensures result1 == nil ==> result0 != nil && fresh(result0)
+//@   ensures own-pool: result1 == nil ==> result0 != nil && fresh(result0)
 //@   modifies nothing
 
 //@ func astra.LoadBundleZip [C19]
@@ -100,6 +101,7 @@ var _ time.Time
 //@   after tls.X509KeyPair#1 set $lbPairOK = (result1 == nil)
 //@   ensures refuses-bad-parts: result1 == nil ==> $lbAppended && $lbPairOK
 //@   ensures config: result1 == nil ==> result0 != nil && result0.TLSConfig != nil && result0.TLSConfig.RootCAs == $lbPool && len(result0.TLSConfig.Certificates) == 1 && result0.TLSConfig.ServerName == result0.Host && !result0.TLSConfig.InsecureSkipVerify && result0.TLSConfig.VerifyPeerCertificate == nil
+//@   ensures own-roots: result1 == nil ==> fresh(result0.TLSConfig.RootCAs)
 //@   ensures result1 != nil ==> result0 == nil
 //@   modifies nothing
 
